@@ -56,6 +56,21 @@ def gen_string(rng, n):
     return "".join(out)
 
 
+WS = [" ", "\n", "\t", "\r\n", "\u00a0", "\u3000", "  "]
+
+
+def edged(rng, text):
+    """sometimes put white space (ASCII and non-ASCII) at the very beginning / end: they are ambiguous bytes like any other"""
+    r = rng.random()
+    if r < 0.15:
+        return rng.choice(WS) + text
+    if r < 0.25:
+        return text + rng.choice(WS)
+    if r < 0.30:
+        return rng.choice(WS) + text + rng.choice(WS)
+    return text
+
+
 def churn(rng, n):
     """allocate and free strings of a similar size so that a dangling buffer would be overwritten"""
     junk = [("Z" * n) + str(i) for i in range(64)]
@@ -114,13 +129,22 @@ def kmer(seed, runs, maxlen):
     for i in range(runs):
         k = 1 + (i % 31) if i % 2 == 0 else rng.choice([1, 2, 15, 16, 17, 30, 31])
         n = rng.choice([rng.randint(0, k + 1), k, rng.randint(0, maxlen), rng.randint(0, maxlen)])
-        text = gen_string(rng, n)
+        text = edged(rng, gen_string(rng, n))
         emit({"ev": "kinit", "k": k, "bytes": list(text.encode("utf-8")), "src": "py"})
         # build from a temporary, release it, churn the allocator before and between the calls
         it = pk.KmerGenerator("".join([text]), k)
         del text
         churn(rng, n)
         j = 0
+        # consumption pattern: plain for loop, or next() a few times and then a for loop (iter() of a started iterator is the
+        # iterator itself, it does not start over), or next() only
+        pre = [0, 1, 3][i % 3]
+        for _ in range(pre):
+            item = next(it, None)
+            if item is None:
+                break
+            emit({"ev": "kemit", "f": d32(item[0]), "r": d32(item[1])})
+            j += 1
         for f, r in it:
             emit({"ev": "kemit", "f": d32(f), "r": d32(r)})
             j += 1
@@ -140,12 +164,20 @@ def minimiser(seed, runs, maxlen):
         m = 1 + (i % 31) if i % 3 == 0 else rng.choice([1, 2, 3, 5, 7, 15, 16, 28, 30, 31])
         w = rng.choice([m, m + 1, m + rng.randint(0, 8), rng.randint(m, m + 60)])
         n = rng.choice([rng.randint(0, w + 1), max(w - 1, 0), w, w + 1, rng.randint(0, maxlen), rng.randint(0, maxlen)])
-        text = gen_string(rng, n)
+        text = edged(rng, gen_string(rng, n))
         emit({"ev": "minit", "w": w, "m": m, "kv": 0, "bytes": list(text.encode("utf-8")), "src": "py"})
         it = pk.MinimiserGenerator("".join([text]), w, m)
         del text
         churn(rng, n)
         j = 0
+        pre = [0, 1, 2][i % 3]
+        for _ in range(pre):
+            item = next(it, None)
+            if item is None:
+                break
+            v, s, e = item
+            emit({"ev": "mrun", "open": 0 if v == (1 << 64) - 1 else 1, "v": d32(v), "s": s, "e": e, "kmers": []})
+            j += 1
         for v, s, e in it:
             emit({"ev": "mrun", "open": 0 if v == (1 << 64) - 1 else 1, "v": d32(v), "s": s, "e": e, "kmers": []})
             j += 1
@@ -241,6 +273,28 @@ def batch(seed):
     emit({"ev": "eof"})
 
 
+def bits(fa, size, kmax):
+    """bit patterns of what the binding returns, for comparison with the Rust core on the same records (`kvh trace bits`):
+    whole-sequence CGR at square size `size`, oligo vectors (raw and normalised) for k = 1..kmax"""
+    import hashlib, struct
+    seqs = [s.decode("latin-1") for s in read_fasta(fa)]
+    c = pk.CgrComputer(size)
+    for i, s in enumerate(seqs):
+        try:
+            pts = c.vectorise_one(s)
+            h = hashlib.sha256(b"".join(struct.pack("<dd", x, y) for x, y in pts)).hexdigest()[:16]
+        except ValueError:
+            h = "error"
+        emit({"ev": "bits", "what": "cgr", "i": i, "size": size, "d": h})
+    for k in range(1, kmax + 1):
+        oc = pk.OligoComputer(k)
+        for norm in (False, True):
+            for i, s in enumerate(seqs):
+                v = oc.vectorise_one(s, norm)
+                h = hashlib.sha256(b"".join(struct.pack("<d", x) for x in v)).hexdigest()[:16]
+                emit({"ev": "bits", "what": "oligo", "k": k, "norm": 1 if norm else 0, "i": i, "d": h})
+
+
 def main():
     cmd = sys.argv[2]
     a = sys.argv[3:]
@@ -258,6 +312,8 @@ def main():
         cgr(int(a[0]), int(a[1]), int(a[2]))
     elif cmd == "batch":
         batch(int(a[0]))
+    elif cmd == "bits":
+        bits(a[0], int(a[1]), int(a[2]))
     else:
         raise SystemExit("unknown command " + cmd)
 
